@@ -14,17 +14,21 @@ def qs(l):
     return "[" + "; ".join(q4(q) for q in l) + "]"
 
 
+def rots(r):
+    return "[" + "; ".join(f"({q4(q)}, {'true' if i else 'false'})" for q, i in zip(r["q"], r["imp"])) + "]"
+
+
 HEADER = """From Verif Require Import NdIndex Quat RotArr ZoneModel KField GroupK KFloat CertCheck RegionCertsAll.
 Open Scope float_scope.
-Record case := mk { nl : String.string; nr : String.string; pairs : list (quat (T:=float) * quat (T:=float)); N : list (quat (T:=float));
+Record case := mk { nl : String.string; nr : String.string; Gl : list (rot (T:=float)); Gr : list (rot (T:=float)); N : list (quat (T:=float));
   ms : list (quat (T:=float)); outs : list (quat (T:=float)); ins : list bool }.
 Definition eps9f : float := 1e-9.
 (* inside tests whose decisive dot product is within 1e-12 of the +-1e-9 tolerance are not compared *)
 Definition near_tol (N : list (quat (T:=float))) (x : quat (T:=float)) : bool :=
   existsb (fun n => let d := abs (qdot FOps n x) in abs (d - eps9f) <? 1e-12) N.
 Definition ok (c : case) : bool :=
-  all2 q_close (map (fun m => reduce_loop FOps eps9f (N c) (pairs c) m (qone FOps)) (ms c)) (outs c)
-  || existsb (fun m => existsb (fun glr => near_tol (N c) (transform FOps (fst glr) (snd glr) m)) (pairs c)) (ms c).
+  all2 q_close (map (reduce_sym FOps eps9f (N c) (Gl c) (Gr c)) (ms c)) (outs c)
+  || existsb (fun m => existsb (fun glr => near_tol (N c) (transform FOps (fst glr) (snd glr) m)) (code_pairs (Gl c) (Gr c))) (ms c).
 Definition ok_inside (c : case) : bool :=
   all2 Bool.eqb (map (fun m => inside_region FOps eps9f (N c) m) (ms c)) (ins c)
   || existsb (near_tol (N c)) (ms c).
@@ -32,22 +36,21 @@ Definition ok_inside (c : case) : bool :=
 
 
 def case_coq(c):
-    head = 'mk "%s" "%s" ' % (c["pair"][0], c["pair"][1])
-    prs = "[" + "; ".join(f"({q4(a)}, {q4(b)})" for a, b in c["pairs"]) + "]"
-    return (head + f"{prs} {qs(c['N'])} {qs(c['m'])} {qs(c['out'])} "
+    head = 'mk "%s" "%s" ' % (c["pnames"][0], c["pnames"][1])    # the groups get_proper_groups selected at run time
+    return (head + f"{rots(c['Gl'])} {rots(c['Gr'])} {qs(c['N'])} {qs(c['m'])} {qs(c['out'])} "
             "[" + "; ".join("true" if b else "false" for b in c["inside_in"]) + "]")
 
 
 def run(tier, seed):
     ck = Check(PROP, tier, seed)
     ck.trusted += ["hand model Model/ZoneModel.v of map_into_symmetry_reduced_zone / OrientationRegion.__gt__ (tied by correspondence)",
-                   "translator for the Hamilton product kernel",
+                   "translator for the Hamilton product kernel and for get_proper_groups (tools/translate/units_c05b.py; compared with the running function on all 38 x 38 ordered pairs on every run)",
                    "region construction (pruning of normals, axis fundamental zone, vertex filter) is not modelled as code: the exact directions of the normals it produces for all 225 ordered pairs of proper groups are regenerated from /repo on every run (tools/translate/units_c05.py), recognised in K (fail-closed), compared with the run-time normals in the correspondence, and their adequacy (inside => minimal angle in the whole orbit) is PROVED via exact Farkas certificates checked in Coq", "the LP that finds the certificates (scipy) is untrusted: certificates are checked by vm_compute"]
     ck.assumptions += ["eps = 1e-9 tolerance of the inside test is part of the model; the minimal-angle theorem is for the exact test (eps = 0)",
                        "orbit = { gl*M*gr : gl, gr both proper or both improper operations of the two groups } -- the symmetry-equivalent (proper) misorientations; it equals the proper x proper orbit of the property statement whenever one of the groups is proper or both contain the inversion, and the orbit of the groups chosen by get_proper_groups (for which the region is built) otherwise (DESIGN.md section 9.4, repair 91fe48e)"]
     if not ck.step_sanity():
         return ck.finish()
-    ck.step_prove(["groups", "regions", "quatkernels", "conversions"], "Props/C05.v", extra=["Model/ZoneModel.vo", "Model/RotArr.vo", "Model/KFloat.vo"])
+    ck.step_prove(["groups", "regions", "gpg", "quatkernels", "conversions"], "Props/C05.v", extra=["Model/ZoneModel.vo", "Model/RotArr.vo", "Model/KFloat.vo"])
     out = run_impl("c05.py", {"seed": seed, "n": 30, "thorough": tier != "quick"}, timeout=3000)
     cases = out["cases"]
     for c in cases:
@@ -62,7 +65,8 @@ def run(tier, seed):
     hdr = HEADER.replace("Definition ok (c : case)", "Definition ok_red (c : case)").replace(
         "Definition ok_inside (c : case)", "Definition ok_ins (c : case)")
     hdr += """(* the exact (K) normals that the certificates are about, normalised and evaluated in binary64, are the
-   normals of the region the implementation built at run time (for pairs of proper groups) *)
+   normals of the region the implementation built at run time; nl, nr = names of the proper groups get_proper_groups
+   selected at run time, so this also covers improper groups *)
 Definition qnormalizef (p : quat (T:=float)) : quat (T:=float) :=
   let '(a, b, c, d) := p in let n := sqrt (a*a + b*b + c*c + d*d) in (a / n, b / n, c / n, d / n).
 Definition ok_normals (c : case) : bool :=
@@ -77,6 +81,31 @@ Definition ok (c : case) : bool := ok_red c && ok_ins c && ok_normals c.
         body = "Definition cases : list case := [\n" + ";\n".join(case_coq(c) for c in cases[i:i + chunk]) + "].\n"
         chunks.append((f"c{i // chunk}", body))
     res = run_cases(PROP, chunks, header_extra=hdr)
+    # get_proper_groups: translated definition against the running function, all 38 x 38 ordered pairs
+    gh = """From Verif Require Import Groups ProperGroups CertCheck CoverCheck ExistCheck AllPairsCheck.
+Definition case := (String.string * String.string * option (String.string * String.string))%type.
+Definition ok (c : case) : bool :=
+  let '(a, b, e) := c in
+  match group_named a, group_named b with
+  | Some g1, Some g2 =>
+      match gpg_names g1 g2, e with
+      | Some (x, y), Some (x', y') => String.eqb x x' && String.eqb y y'
+      | None, None => true
+      | _, _ => false
+      end
+  | _, _ => false
+  end.
+"""
+    gbody = "Definition cases : list case := [\n" + ";\n".join(
+        '("%s", "%s", %s)' % (a, b, "None" if x is None else 'Some ("%s", "%s")' % (x, y)) for a, b, x, y in out["gpg"]) + "].\n"
+    gres = run_cases(PROP + "_gpg", [("gpg", gbody)], header_extra=gh)
+    for name, n, bad, err in gres:
+        if err:
+            ck.broken.append(("correspondence", f"get_proper_groups cases did not evaluate: {err[-300:]}"))
+        for b in bad:
+            a, bb, x, y = out["gpg"][b]
+            ck.disagreement(f"translated get_proper_groups and the running function differ for ({a}, {bb})", {"pair": [a, bb], "runtime": [x, y]})
+        ck.count("get_proper_groups:all-pairs", "gpg")
     for (name, n, bad, err), i in zip(res, range(0, len(cases), chunk)):
         if err:
             ck.broken.append(("correspondence", f"cases file {name} did not evaluate: {err[-300:]}"))
